@@ -104,3 +104,165 @@ def constructors_of(P, adt, crates=None):
                 if r.get("k") == "agg" and r.get("ak") == "adt" and r.get("adt") == adt:
                     out.setdefault(b.get("owner", k), []).append((bi, r.get("vn"), s.get("sp")))
     return out
+
+
+# ---------------------------------------------------------------------------------------------
+# guard extraction: the branch conditions a block is control dependent on, described by the
+# definition of the value each branch switches on (no path enumeration)
+def local_defs(body, local):
+    """All definitions of a local: ('stmt', block, stmt) / ('call', block, term)."""
+    out = []
+    for bi, blk in enumerate(body["blocks"]):
+        for s in blk["s"]:
+            if s["k"] == "assign" and s["p"]["l"] == local and not s["p"]["pj"]:
+                out.append(("stmt", bi, s))
+        t = blk["t"]
+        if t["k"] == "call" and t["d"]["l"] == local and not t["d"]["pj"]:
+            out.append(("call", bi, t))
+    return out
+
+
+def describe_operand(P, body, o, depth=0):
+    """Structural description of an operand, following single definitions of compiler temporaries."""
+    k = o.get("k")
+    if k == "const":
+        c = o.get("c") or {}
+        if "int" in c:
+            return ("int", int(c["int"]), o.get("ty"))
+        if "uneval" in o:
+            return ("uneval", o["uneval_args"])
+        if "promoted" in o:
+            return ("promoted", o["promoted"])
+        if "fn" in c:
+            return ("fn", c["fn"])
+        if "str" in c:
+            return ("str", c["str"])
+        return ("const", o.get("ty"))
+    if k in ("copy", "move"):
+        return describe_place(P, body, o["p"], depth)
+    return ("?",)
+
+
+def describe_place(P, body, p, depth=0):
+    l = p["l"]
+    name = body["locals"][l].get("n")
+    pj = tuple(("d" if e == "d" else e.get("n", e.get("f", e.get("dc", "?")))) if not isinstance(e, str) else e for e in p["pj"])
+    if name or l <= body["argc"] or depth > 6:
+        return ("place", name or f"_{l}", pj)
+    defs = local_defs(body, l)
+    if len(defs) != 1:
+        return ("place", f"_{l}", pj)
+    kind, bi, d = defs[0]
+    base = describe_def(P, body, kind, d, depth + 1)
+    return base if not pj else ("proj", base, pj)
+
+
+def describe_def(P, body, kind, d, depth=0):
+    if kind == "call":
+        f = d["f"]
+        callee = f.get("fn_args", f.get("decl_args", f.get("fn", "?"))) if f.get("k") == "fnref" else "<indirect>"
+        return ("call", callee, tuple(describe_operand(P, body, a, depth) for a in d["a"]))
+    r = d["r"]
+    rk = r["k"]
+    if rk == "use":
+        return describe_operand(P, body, r["o"], depth)
+    if rk in ("ref", "rawptr", "cfd"):
+        return ("ref", describe_place(P, body, r["p"], depth))
+    if rk == "bin":
+        return ("bin", r["op"], describe_operand(P, body, r["a"], depth), describe_operand(P, body, r["b"], depth))
+    if rk == "un":
+        return ("un", r["op"], describe_operand(P, body, r["o"], depth))
+    if rk == "cast":
+        return ("cast", r["ty"], describe_operand(P, body, r["o"], depth))
+    if rk == "discr":
+        return ("discr", describe_place(P, body, r["p"], depth))
+    if rk == "agg":
+        return ("agg", r.get("adt", r["ak"]), r.get("vn"), tuple(describe_operand(P, body, o, depth) for o in r["ops"]))
+    return ("rvalue", rk)
+
+
+def guards_of(P, key, block):
+    """[(description of the switched value, value taken towards `block`)] for every branch `block` is control dependent on."""
+    body = P.body(key)
+    c = cfg_of(body)
+    out = []
+    for a, s in c.control_deps(block):
+        t = body["blocks"][a]["t"]
+        if t["k"] != "switch":
+            continue
+        vals = [v for v, b in t["tg"] if b == s]
+        taken = int(vals[0]) if vals else ("otherwise", tuple(int(v) for v, _ in t["tg"]))
+        out.append((describe_operand(P, body, t["d"]), taken, a))
+    return out
+
+
+def guard_calls(guards):
+    """{callee (generic args stripped to the last path segments): truthiness} for guards that are bool call results."""
+    out = {}
+    for d, taken, _ in guards:
+        neg = False
+        while d[0] == "un" and d[1] == "Not":
+            d, neg = d[2], not neg
+        if d[0] == "call":
+            truth = None
+            if taken == 0:
+                truth = False
+            elif taken == 1:
+                truth = True
+            elif isinstance(taken, tuple) and taken[0] == "otherwise":
+                truth = (0 in taken[1])
+            if truth is not None:
+                out[d[1]] = (truth != neg, d[2])
+    return out
+
+
+def origins(P, body, local, seen=None, payload=False):
+    """Leaves of the reaching-definition closure of a local: where can its value come from?
+    Leaves: ('const', descr) | ('call', callee, arg descriptions, block) | ('param', name) | ('agg', adt, variant, [origins of operands])."""
+    seen = seen if seen is not None else set()
+    if local in seen:
+        return set()
+    seen.add(local)
+    if 1 <= local <= body["argc"]:
+        return {("param", body["locals"][local].get("n"))}
+    out = set()
+    for kind, bi, d in local_defs(body, local):
+        if kind == "call":
+            f = d["f"]
+            callee = f.get("fn_args", f.get("fn", "?")) if f.get("k") == "fnref" else "<indirect>"
+            args = []
+            for a in d["a"]:
+                if a.get("k") in ("copy", "move"):
+                    args.append(frozenset(origins(P, body, a["p"]["l"], set(seen))))
+                else:
+                    args.append(frozenset({("const", str(describe_operand(P, body, a))[:80])}))
+            out.add(("call", callee, tuple(args)))
+            continue
+        r = d["r"]
+        rk = r["k"]
+        if rk == "use":
+            o = r["o"]
+            if o.get("k") in ("copy", "move"):
+                out |= origins(P, body, o["p"]["l"], seen)
+            else:
+                out.add(("const", str(describe_operand(P, body, o))[:80]))
+        elif rk in ("ref", "cfd", "rawptr"):
+            out |= origins(P, body, r["p"]["l"], seen)
+        elif rk == "agg":
+            if not r["ops"]:
+                out.add(("const", f"{r.get('adt', r['ak'])}::{r.get('vn')}"))
+            else:
+                for o in r["ops"]:
+                    if o.get("k") in ("copy", "move"):
+                        out |= origins(P, body, o["p"]["l"], seen)
+                    else:
+                        out.add(("const", str(describe_operand(P, body, o))[:80]))
+        elif rk == "cast":
+            o = r["o"]
+            if o.get("k") in ("copy", "move"):
+                out |= origins(P, body, o["p"]["l"], seen)
+            else:
+                out.add(("const", "cast"))
+        else:
+            out.add(("rvalue", rk))
+    return out
